@@ -107,7 +107,7 @@ def wf_transition(c, src, tgt):
     return True
 
 
-def wf(c):
+def wf(c, need_initial=True):
     n, k, par = c['n'], c['kind'], c['parent']
     if par.count(0) != 1:
         return False
@@ -122,7 +122,7 @@ def wf(c):
         if ks not in COMPOSITE and ch:
             return False
         if ks == 'compound':
-            if c['initial'][s - 1] not in ch:
+            if c['initial'][s - 1] not in ch and (need_initial or c['initial'][s - 1] != 0):
                 return False
         elif c['initial'][s - 1] != 0:
             return False
